@@ -7,7 +7,7 @@ props="$@"; [ -z "$props" ] && props=$prop
 cd /repo
 if [ -n "$(git status --porcelain)" ]; then echo "/repo not clean"; exit 2; fi
 git apply $d/patch.diff || { echo "patch does not apply"; exit 2; }
-: > $d/detect.log
+mkdir -p /tmp/detect_verif; cp /verif/known_findings.json /tmp/detect_verif/; : > $d/detect.log
 for p in $props; do
   VERIF_DIR=/tmp/detect_verif /verif/bin/gbverif check $p 2>&1 | grep -E "^(VIOLATION|KNOWN-FINDING|C[0-9]+ tier)" | sed "s#/tmp/detect_verif#/verif#" >> $d/detect.log
 done
